@@ -116,6 +116,41 @@ func ruleIndexCondConjunctive(c *eng.Ctx) {
 		}
 	}
 	c.Floor(rule, n, 1)
+	// the filter that is searched for index conditions is not the product of a branch-dropping
+	// transform: filter.CopyField keeps of an _or only the branches that mention the field and
+	// filter.Merge normalizes a single remaining branch into a plain condition
+	for _, fi := range c.P.FuncsIn("internal/db/fetcher") {
+		if fi.Decl.Body == nil || isTestFile(c.P, fi) {
+			continue
+		}
+		info := fi.Pkg.TypesInfo
+		k := 0
+		ast.Inspect(fi.Decl.Body, func(m ast.Node) bool {
+			as, ok := m.(*ast.AssignStmt)
+			if !ok {
+				return true
+			}
+			for i, l := range as.Lhs {
+				if !isFieldNamed(info, l, "indexFilter") || len(as.Rhs) != len(as.Lhs) {
+					continue
+				}
+				k++
+				derived := ""
+				ast.Inspect(as.Rhs[i], func(x ast.Node) bool {
+					if call, ok := x.(*ast.CallExpr); ok {
+						switch nm := eng.CalleeName(info, call); nm {
+						case "internal/planner/filter.CopyField", "internal/planner/filter.Merge", "internal/planner/filter.MergeConditions", "internal/planner/filter.Normalize":
+							derived = nm
+						}
+					}
+					return true
+				})
+				c.Check(derived == "", rule, fmt.Sprintf("%s:indexFilter-source#%d", shortFn(fi), k), as.Pos(), "index conditions are searched in the document filter itself",
+					"the filter searched for index conditions is produced by "+derived+": of an _or only the branches mentioning an indexed field survive (and a single one is normalized into a plain condition), so the index is narrowed by a condition that not every matching document satisfies")
+			}
+			return true
+		})
+	}
 }
 
 // ruleInValuesDistinct: the _in iterator makes one pass over the index per listed value; the list
